@@ -20,6 +20,17 @@ def need(obj, *names):
             raise Unavailable(f"{type(obj).__name__ if not isinstance(obj, type) else obj.__name__} has no attribute {n}")
 
 
+def state_like(template, **fields):
+    """A state (or any dataclass / namedtuple node of it) with the given fields replaced, every OTHER field taken from
+    `template` - a value the library itself produced (its shipped generator or its own reset).  Harness-made states are
+    built this way, never through the class constructor, so that a field the library adds to its State is carried along."""
+    if hasattr(template, "__dataclass_fields__"):
+        import dataclasses
+
+        return dataclasses.replace(template, **fields)
+    return template._replace(**fields)
+
+
 def thin(items, limit):
     if limit and len(items) > limit:
         step = len(items) / float(limit)
